@@ -180,7 +180,29 @@ TOP_CASES = [
     ("raw_objects_out", "Select(MetaData(ds0, {}), lambda e: 1)", "skip"),
     ("too_many_names", "ResultTTree(Select(ds0, lambda e: (1, 2)), ['a', 'b', 'c'], 't', 'f.root')", None),
     ("too_few_names", "ResultTTree(Select(ds0, lambda e: (1, 2)), ['a'], 't', 'f.root')", None),
+    ("too_many_names_scalar", "ResultTTree(Select(ds0, lambda e: 1), ['a', 'b'], 't', 'f.root')", None),
+    ("too_many_names_single_vector", "ResultTTree(Select(DSMD, lambda e: e.As('ba').Select(lambda a: a.d())), ['a', 'b'], 't', 'f.root')", None),
+    ("too_many_names_per_element", "ResultTTree(Select(SelectMany(DSMD, lambda e: e.As('ba')), lambda a: a.d()), ['a', 'b', 'c'], 't', 'f.root')", None),
+    ("no_names", "ResultTTree(Select(ds0, lambda e: 1), [], 't', 'f.root')", None),
 ]
+
+# unsupported constructs INSIDE the arguments of a call that the plug-in pre-pass rewrites
+# (built-in DeltaR, a user function declared with add_cpp_function)
+USERFN = {"metadata_type": "add_cpp_function", "name": "myf", "include_files": [], "arguments": ["x", "y"],
+          "code": ["auto result = x + y;"], "return_type": "double"}
+INSIDE = [
+    ("floordiv", "({0} // 2)"), ("cmpchain", "(1 if (0 < {0} < 10) else 2)"), ("invert", "(~{0})"), ("matmul", "({0} @ 2)"),
+    ("setdisplay", "({{{0}, 1}})"), ("value_as_seq", "{0}.Count()"), ("seq_arith", "(a.vs() + {0})"), ("slice", "a.vs()[0:2].Count()"),
+]
+ARG_CASES = []
+for gname, fmt in INSIDE:
+    g = fmt.format("a.d()")
+    ARG_CASES.append((f"in_DeltaR_arg:{gname}", f"Select(DSMD, lambda e: e.As('ba').Select(lambda a: DeltaR({g}, a.g(), a.d(), a.g())))", None))
+    ARG_CASES.append((f"in_userfn_arg:{gname}", f"Select(MetaData(DSMD, {USERFN!r}), lambda e: e.As('ba').Select(lambda a: myf(a.g(), {g})))", None))
+ARG_CASES.append(("in_DeltaR_arg:getAttribute", "Select(DSMD, lambda e: e.As('ba').Select(lambda a: DeltaR(a.getAttribute('x'), a.g(), a.d(), a.g())))", "atlas"))
+ARG_CASES.append(("in_userfn_arg:getAttribute", f"Select(MetaData(DSMD, {USERFN!r}), lambda e: e.As('ba').Select(lambda a: myf(2.0 * a.getAttribute('x'), a.g())))", "atlas"))
+ARG_CASES.append(("in_userfn_nested:getAttribute", f"Select(MetaData(DSMD, {USERFN!r}), lambda e: e.As('ba').Select(lambda a: myf(myf(a.d(), a.getAttribute('x')), a.g())))", "atlas"))
+TOP_CASES += ARG_CASES
 
 
 def gen_cases(ctx, n):
@@ -218,9 +240,9 @@ def run_case(c):
     if c["query"] is not None:
         src = render_functional_raw(c["query"], mds)
     elif c.get("with_md"):
-        src = c["src"].replace("ds0", "ds0" if False else _md_src(mds))
+        src = c["src"].replace("ds0", _md_src(mds))
     else:
-        src = c["src"]
+        src = c["src"].replace("DSMD", _md_src(mds))
     return P.translate_functional(c["backend"], src)
 
 
@@ -285,7 +307,7 @@ def search(ctx, broken):
 
 def replay(ctx, rep) -> int:
     c = rep["case"]
-    src = c.get("full_source") or c["source"].replace("ds0", _md_src(qgen.metadata(c["backend"])), 1)
+    src = c.get("full_source") or c["source"].replace("DSMD", "ds0").replace("ds0", _md_src(qgen.metadata(c["backend"])), 1)
     r = P.translate_functional(c["backend"], src)
     print("accepted — VIOLATION" if r["ok"] else f"refused: {r['error']}: {r['message'][:200]}")
     if r["ok"]:
